@@ -52,6 +52,9 @@ def generate(st):
     }
     if cfg['stamp_offset']:
         cfg['modes'] = ['explicit']
+    if getattr(st, 'deep', False) and sw.random() < 0.02:
+        # thorough tier only: a store of a few thousand rows (size thresholds in the library, if any, lie far above the quick tier)
+        cfg.update({'n_dates': sw.choice([700, 1100]), 'n_ops': 6, 'p_partial': 0.0, 'p_nan': 0.3})
     if not cfg['faulty']:
         cfg['ticks'] = [t for t in cfg['ticks'] if t > 0] or [1]
     now = datetime.datetime.fromisoformat(cfg['origin'])
